@@ -2737,6 +2737,7 @@ process(struct Options *opt)
     const char *err5a = "Unable to set range to an SDS\n";
     const char *err6a = "Unable to close the SDS\n";
     const char *err6  = "Unable to close the HDF output file\n";
+    const char *err7  = "Raster output (-r) needs 32-bit floating point data, file: %s.\n";
     /*
      * process the palette file (if one was specified)
      */
@@ -2790,6 +2791,15 @@ process(struct Options *opt)
 
         if (gtype(opt->infiles[i].filename, &in, &strm))
             goto err;
+
+        /*
+         * pixrep() and interp() work on float32 data and on the float32 scale
+         * buffers, which exist for 32-bit float output only
+         */
+        if (opt->to_image == TRUE && in.outtype != FP_32 && in.outtype != NO_NE) {
+            fprintf(stderr, err7, opt->infiles[i].filename);
+            goto err;
+        }
 
         if (gdimen(opt->infiles[i], &in, strm))
             goto err;
